@@ -111,7 +111,7 @@ class C05A(DevProp):
     imports = "Model.AnalogF Model.AnalogSpec Run.AnalogRun"
     case_type = "acase"
     fail_term = "c05a_failures k"
-    mis_term = "(@None nat)"
+    mis_term = "afull_mismatch k"      # bytes, signals and State() of every step of the full machine (float layer + state machine)
     nontrivial_term = None
     monitor_name = C05.monitor_name
     correspondence_name = "C05 view (per message: well-formed or not), axis events"
@@ -148,17 +148,23 @@ class C05A(DevProp):
                                    flip=flip, bidi=True, dzc=dzc),
                        agen.analog(agen.ABS_Y, "cc", cc=rng.choice([2, 64]), off=rng.choice([0, 9]), flip=flip, dzc=dzc),
                        agen.analog(agen.ABS_Z, "pitch_bend", off=rng.choice([0, 15]), flip=not flip, dzc=dzc),
-                       agen.analog(agen.ABS_RX, "key", note=rng.choice([0, 127, 60]), noteneg=rng.choice([0, 127]), off=15, offneg=1, bidi=True, flip=flip, dzc=dzc)]
-            absl = [{"code": c, "min": mn, "max": mx} for c in (agen.ABS_X, agen.ABS_Y, agen.ABS_Z, agen.ABS_RX)]
-            cfg = agen.base_cfg(analogs, defdz=[{"sub": "", "bits": str(bits(dz))}], actions=[{"code": 59, "action": "octave_up"}, {"code": 63, "action": "channel_up"}],
+                       agen.analog(agen.ABS_RX, "key", note=rng.choice([0, 127, 60]), noteneg=rng.choice([0, 127]), off=15, offneg=1, bidi=True, flip=flip, dzc=dzc),
+                       # an axis that emulates ACTION keys (a hat switching octaves, a trigger firing panic)
+                       agen.analog(agen.ABS_RY, "action", act=rng.choice(["octave_up", "semitone_up", "channel_up", "panic", "mapping_up"]),
+                                   actneg=rng.choice(["octave_down", "semitone_down", "channel_down", "panic", "mapping_down"]), flip=flip, dzc=dzc)]
+            absl = [{"code": c, "min": mn, "max": mx} for c in (agen.ABS_X, agen.ABS_Y, agen.ABS_Z, agen.ABS_RX, agen.ABS_RY)]
+            cfg = agen.base_cfg(analogs, defdz=[{"sub": "", "bits": str(bits(dz))}], actions=[{"code": 59, "action": "octave_up"}, {"code": 60, "action": "octave_down"}, {"code": 63, "action": "channel_up"}],
                                 channel=rng.choice([1, 16]), velocity=rng.choice([1, 127]))
-            vals = sorted({mn, mn + 1, mx, mx - 1, 0 if mn <= 0 <= mx else mn, (mn + mx) // 2, (mn + mx) // 2 + 1} | {rng.randint(mn, mx) for _ in range(6)})
+            vals = sorted({mn, mn + 1, mx, mx - 1, 0 if mn <= 0 <= mx else mn, (mn + mx) // 2, (mn + mx) // 2 + 1} | {rng.randint(mn, mx) for _ in range(6)} |
+                          {v for v in (int(0.495 * mx), int(0.495 * mn), mn + int((mx - mn) * 0.7475), mn + int((mx - mn) * 0.2525)) if mn <= v <= mx})
             ev = []
             for v in vals + vals[::-1]:
-                for code in (agen.ABS_X, agen.ABS_Y, agen.ABS_Z, agen.ABS_RX):
+                for code in (agen.ABS_X, agen.ABS_Y, agen.ABS_Z, agen.ABS_RX, agen.ABS_RY):
                     ev.append({"t": "a", "sub": "", "code": code, "val": v})
                 if rng.random() < 0.2:
                     ev += tap(63)
+            # an up/down pair held by keys while the axes move (the action axis consults the pair detection first)
+            ev += [k(59, 1), k(60, 1)] + [{"t": "a", "sub": "", "code": code, "val": v} for v in (mx, mn, (mn + mx) // 2) for code in (agen.ABS_RY, agen.ABS_RX, agen.ABS_X)] + [k(59, 0), k(60, 0)]
             cases.append({"cfg": cfg, "abs": absl, "events": ev, "tag": "axes[%d,%d]" % (mn, mx)})
         return cases
 
